@@ -171,6 +171,7 @@ type Config struct {
 	Tracker              *pooltrack.Tracker
 	// TagOf extracts the request tag from what the handler sees; default: first path segment.
 	QuiesceTimeout time.Duration
+	NoPreface      bool // the caller writes the client preface itself
 }
 
 // H is one connection between the scripted peer and a server under test.
@@ -252,8 +253,16 @@ func Start(cfg Config) *H {
 		close(h.ServeDone)
 	}()
 	go h.readLoop()
-	_, _ = c.Write([]byte(Preface))
+	if !cfg.NoPreface {
+		_, _ = c.Write([]byte(Preface))
+	}
 	return h
+}
+
+// StartRaw is Start without the client preface: the caller supplies every octet.
+func StartRaw(cfg Config) *H {
+	cfg.NoPreface = true
+	return Start(cfg)
 }
 
 // Close tears the connection down from the peer side and forgets the stats.
@@ -640,6 +649,7 @@ type snap struct {
 	unreadS, unreadC        int
 	parkedS, parkedC        bool
 	readerGone              bool
+	served                  bool // ServeConn has returned
 }
 
 func (h *H) snapshot() snap {
@@ -653,10 +663,19 @@ func (h *H) snapshot() snap {
 	s.unreadS, s.parkedS = h.S.Unread(), h.S.ReaderParked()
 	s.unreadC, s.parkedC = h.C.Unread(), h.C.ReaderParked()
 	s.readerGone = h.readerGone.Load()
+	select {
+	case <-h.ServeDone:
+		s.served = true
+	default:
+	}
 	return s
 }
 
 func (s snap) quiet() bool {
+	if s.served {
+		// the connection handler is gone: only our own reader has to catch up
+		return s.readerGone || (s.unreadC == 0 && s.parkedC)
+	}
 	e := s.ev
 	readDone := e[http2.VerifEvReadLoopExit] > 0
 	streamDone := e[http2.VerifEvStreamLoopExit] > 0
@@ -726,6 +745,23 @@ func (h *H) WaitServeDone(d time.Duration) bool {
 	case <-time.After(d):
 		return false
 	}
+}
+
+// ConnGoroutines returns the stacks of goroutines that belong to this
+// connection's serverConn (matched by the object's address in the dump).
+func (h *H) ConnGoroutines() []string {
+	p := h.Stats.Ptr.Load()
+	if p == 0 {
+		return nil
+	}
+	needle := fmt.Sprintf("(0x%x", p)
+	var out []string
+	for _, g := range LibraryGoroutines() {
+		if strings.Contains(g, needle) {
+			out = append(out, g)
+		}
+	}
+	return out
 }
 
 // Goroutines returns the stacks of goroutines that are inside the library.
